@@ -18,8 +18,27 @@ Stated space per tier
             (b) 36 iterable kinds x 11-16 loop bodies, (d) native classes, (e) additionally
             try/except/else/finally and generator scripts of <= 3 operations; configurations per family: see
             configs().
+  both      (h) every single-inheritance chain of native classes of depth <= 3 where each level has / has not
+            class-level attribute defaults (a level with defaults also re-defines the nearest ancestor's one),
+            an __init__, methods + property of its own (8 + 64 + 512 chains) x placement of the classes over a
+            three-module package x layout: quick = {all in one module: single, separate; one module per class:
+            single, multi_file, separate; first class | rest and rest | leaf: multi_file, separate} at opt 0
+            (2184 placed chains, 9 placement x layout pairs); thorough adds the placement "whole chain in a
+            library module", all placement x layout pairs at opt 0, and opt 3 for (one module, single group) and
+            (one module per class, separate).
+            Observed: construction (interpreter / compiled), reads of every level's attributes from the
+            interpreter and from compiled code through every static type of the chain, writes, isinstance,
+            copy / deepcopy / pickle.
+            (o) evaluation order and eagerness: 330 forms (every specialiser registered in
+            mypyc/irbuild/specialize.py except librt / attrs / dataclasses.field - the mapping is computed
+            from the registry and reported as coverage.family_info.o.specializers - plus short-circuit,
+            comparison, subscript, display, assignment-target, call-shape, default-argument, with / for / match /
+            raise / assert forms); every operand position k is wrapped in a helper that logs k and raises
+            ValueError('P:k') on demand; each form is run for "nobody raises" and "position r raises" (all r)
+            x its value variants; oracle: same result / exception and same log.  quick: opt 0 single group;
+            thorough: opt 0 + 3, multi_file and separate as well.
 
-Debugging aids (never set by ./check): C05_ONLY=a,c (families), C05_CONFIGS=0:single,3:separate,
+Debugging aids (never set by ./check): C05_ONLY=a,c (families), C05_STRIDE=n, C05_CONFIGS=0:single,3:separate,
 C05_REPO=<scratch git worktree of /repo> (compile another tree: seeded-defect demonstrations).
 """
 
@@ -73,6 +92,9 @@ def families(tier: str) -> tuple[dict[str, list[dict]], dict]:
         fam["d"], info["d"] = gen.family_d()
     if only:
         fam = {k: v for k, v in fam.items() if k in only.split(",")}
+    stride = int(os.environ.get("C05_STRIDE", "1"))  # debugging aid: every n-th unit only
+    if stride > 1:
+        fam = {k: v[::stride] for k, v in fam.items()}
     return fam, info
 
 
@@ -100,7 +122,7 @@ def configs(tier: str, cls: str) -> list[tuple[str, str]]:
         pl = cls[2:]
         if tier == "quick":
             return [("0", lay) for lay in gen2.H_LAYOUTS_QUICK[pl]]
-        return [("0", lay) for lay in bld.LAYOUTS] + ([("3", "single"), ("3", "separate")] if pl in ("one", "split-all") else [])
+        return [("0", lay) for lay in bld.LAYOUTS] + {"one": [("3", "single")], "split-all": [("3", "separate")]}.get(pl, [])
     if tier == "quick":
         return [("0", "single")]
     if cls == "o":
@@ -129,6 +151,8 @@ def plan(tier: str) -> tuple[list[dict], dict[str, list[dict]], dict]:
             for k, units in enumerate(mods):
                 jobs.append({"id": f"{cls}{k:02d}-o{opt}-{layout}", "family": units[0]["family"], "units": units,
                              "opt": opt, "layout": layout, "c_names": c_names if cls == "a" else [],
+                             # family h is generated well-typed: mypyc's own type check is the only one needed
+                             "filter": not cls.startswith("h-"),
                              "support": gen.support_modules(units)})
     return jobs, fam, info
 
@@ -158,7 +182,8 @@ def module_pipeline(job: dict) -> dict:
     t0 = time.time()
     try:
         b = bld.build_module({"dir": d, "units": job["units"], "opt": job["opt"], "layout": job["layout"],
-                              "c_names": job["c_names"], "support": job["support"], "timeout": job["build_timeout"]})
+                              "c_names": job["c_names"], "support": job["support"], "timeout": job["build_timeout"],
+                              "filter": job.get("filter", True)})
         if not b["ok"]:
             return {"id": job["id"], "build": b, "chunks": []}
         if not b["kept"]:
@@ -371,6 +396,7 @@ def run(ctx: Ctx) -> Result:
         "exception_types_seen": sorted({k for ks in outcome_kinds.values() for k in ks if not k.startswith("value:")}),
         "candidates_rejected_by_mypy_or_mypyc": len(rejected),
         "rejected_samples": dict(list(sorted(rejected.items()))[:6]),
+        "rejected_in_families_h_o": {n: w for n, w in sorted(rejected.items()) if n.startswith(("hh_", "o_"))},
         "registry": {
             "entries": len(entries),
             "excluded_by_rule": dict(Counter(excluded.values())),
